@@ -288,7 +288,7 @@ fn isolated(ctx: &Ctx, progs: &[Prog], processes: usize) -> Option<Vec<u64>> {
 
 pub fn scratch_dir() -> PathBuf {
     // stable across the child processes of one run
-    fw::verif_root().join("build").join("scratch-c17")
+    fw::verif_root().join("build").join(format!("scratch-c17-{}", std::process::id()))
 }
 
 /// `avra-verif c17-one <seed> <index> <scratch>`: build one pool program in a fresh process, print its fingerprint
